@@ -37,13 +37,18 @@ REL_TOL = 1e-10
 JOBS = int(os.environ.get('VERIF_C20_JOBS', '4'))     # fault histories executed at the same time
 ROLES = ['pyx', 'c', 'o', 'so']
 ROLE_COQ = {'pyx': 'Pyx', 'c': 'Cfile', 'o': 'Obj', 'so': 'So'}
+VROLE_COQ = {'pyx': 'RPyx', 'c': 'RCfile', 'o': 'RObj', 'so': 'RSo', 'ok': 'ROk'}
+NCOL = 5        # observed per form: .so, .pyx, .c, .o, stamp (.ok; protocol Ver only, dropped for the model New)
 CLASSES = ['Empty', 'Header', 'Half', 'AllButLast', 'Garbage']
 CLASS_CODE = {'Empty': 2, 'Header': 3, 'Half': 4, 'AllButLast': 5, 'Garbage': 6}
 OC_NAME = {0: 'ok', 1: 'exception', 2: 'interpreter-death', 3: 'killed', 4: 'wrong-assembler', 5: 'no-result'}
-STAGE_CODE = {'mkdir': 3, 'import': 1, 'mkdtemp': 2, 'replace': 50, 'cleanup': 51, 'reimport': 52}
+STAGE_CODE = {'mkdir': 3, 'import': 1, 'mkdtemp': 2, 'replace': 50, 'cleanup': 51, 'reimport': 52,
+              'verify': 6, 'replaceok': 53}
 for _i, _r in enumerate(ROLES):
     for _k in range(5):
         STAGE_CODE['%s%d' % (_r, _k)] = 10 * (_i + 1) + _k
+for _k in range(5):
+    STAGE_CODE['ok%d' % _k] = 60 + _k
 
 
 def size_for_class(k, size):   # same convention as the driver
@@ -61,6 +66,26 @@ def coq_pc(stage):
         return {'mkdir': 'PMkdir', 'import': 'PImport', 'mkdtemp': 'PMkdtemp', 'replace': 'PReplace', 'cleanup': 'PCleanup',
                 'reimport': 'PReimport'}[stage]
     return '(PWrite %s W%d)' % (ROLE_COQ[stage[0]], stage[1])
+
+
+def coq_vpc(stage):
+    if isinstance(stage, str):
+        return {'mkdir': 'VMkdir', 'verify': 'VVerify', 'import': 'VImport', 'mkdtemp': 'VMkdtemp', 'replace': 'VReplaceSo',
+                'replaceok': 'VReplaceOk', 'cleanup': 'VCleanup', 'reimport': 'VReimport'}[stage]
+    return '(VWrite %s W%d)' % (VROLE_COQ[stage[0]], stage[1])
+
+
+def coq_vevent(e):
+    t = e[0]
+    if t == 'run':
+        return 'VERun %d' % e[1]
+    if t == 'kill':
+        return 'VEKill %d %s' % (e[1], coq_vpc(e[2]))
+    if t == 'dmg':
+        return 'VEDmg %s %s' % (VROLE_COQ[e[1]], 'None' if e[2] is None else '(Some %s)' % e[2])
+    if t == 'sched':
+        return 'VESched %s %s' % (clist(e[1]), clist(['(%d, %s)' % (i, coq_vpc(s)) for i, s in e[2]]))
+    raise ValueError(e)
 
 
 def coq_event(e):
@@ -120,7 +145,7 @@ class Cache:
                 rel = os.path.relpath(p, self.root)
                 top = os.path.relpath(p, md).split(os.sep)[0]
                 role = ('pyx' if f.endswith('.pyx') else 'c' if f.endswith('.c') else 'o' if f.endswith('.o')
-                        else 'so' if f.endswith('.so') else None)
+                        else 'so' if f.endswith('.so') else 'ok' if f.endswith('.ok') else None)
                 form = None
                 for i, n in enumerate(self.lab.names):
                     if f.startswith(n):
@@ -145,12 +170,12 @@ class Cache:
         self.read_journal()
         fl = self.files()
         tmpdirs = set()
-        per = [[0, 0, 0, 0] for _ in self.lab.names]
+        per = [[0] * NCOL for _ in self.lab.names]
         for rel, role, form, in_tmp in fl:
             if in_tmp:
                 tmpdirs.add(os.path.relpath(os.path.join(self.root, rel), self.moddir).split(os.sep)[0])
             elif role and form is not None:
-                per[form][{'so': 0, 'pyx': 1, 'c': 2, 'o': 3}[role]] = self.code(rel)
+                per[form][{'so': 0, 'pyx': 1, 'c': 2, 'o': 3, 'ok': 4}[role]] = self.code(rel)
         return [len(tmpdirs)] + [x for p in per for x in p]
 
     def damage(self, role, cls, rng):
@@ -420,10 +445,16 @@ Fixpoint bad (pr : proto) (full : bool) (k : nat) (cs : list (list event * list 
 '''
 
 
-def coq_case(h):
-    ev = clist([coq_event(e) for e in h['events']])
-    ob = clist(['(%s, %s, %s)' % (clist(o), clist(f), clist(t)) for (o, f, t) in h['obs']])
+def coq_case(h, ver=False):
+    ev = clist([(coq_vevent if ver else coq_event)(e) for e in h['events']])
+    # the model New has no stamp column
+    col = (lambda f: f) if ver else (lambda f: [x for i, x in enumerate(f) if i == 0 or (i - 1) % NCOL != NCOL - 1])
+    ob = clist(['(%s, %s, %s)' % (clist(o), clist(col(f)), clist(t)) for (o, f, t) in h['obs']])
     return '(%s, %s)' % (ev, ob)
+
+
+HEADER_V = HEADER.replace('From Verif.C20 Require Import Model.', 'From Verif.C20 Require Import Model Verify.') \
+    .replace('list event', 'list vevent').replace('predict pr orc 2 (fst c)', 'vpredict orc 2 (fst c)')
 
 
 def cold_race(lab, spec):
@@ -448,8 +479,8 @@ def property_on_impl(h, crash_classes):
         if e[0] == 'kill' and ocs and ocs[0] in (1, 2, 4):
             return (OC_NAME[ocs[0]], 'event %d (%s): the process ended with %s before reaching the kill point'
                     % (k, e, OC_NAME[ocs[0]]))
-        for n in range((len(fs) - 1) // 4):
-            so = fs[1 + 4 * n]
+        for n in range((len(fs) - 1) // NCOL):
+            so = fs[1 + NCOL * n]
             if e[0] == 'dmg' and e[1] == 'so':
                 complete_since.pop(n, None)
             elif so == 1:
@@ -463,6 +494,7 @@ def property_on_impl(h, crash_classes):
 def run(ctx):
     thorough = ctx.tier == 'thorough'
     ctx.obligations_stage(PROPS, extra_targets=['C20/Examples.vo'])
+    ctx.obligations_stage('C20/Props2.v', extra_targets=['C20/Examples2.vo'])
     ctx.assumptions += [
         'model: hand transcription of compile_cython_module/_compile_cython_module_nocache (pyiga/compile.py) as '
         'atomic steps import / mkdtemp / write{pyx,c,o,so} x 5 phases / replace / cleanup / reimport (coq/C20/Model.v)',
@@ -509,6 +541,11 @@ def _run(ctx, thorough, base):
             seed, r0 = cache, r
             seed_obs = ([r0['code']], seed.observe(), [STAGE_CODE[x] for x in r0['res'].get('trace', [])])
     reached = [s for s, _, _ in snaps]
+    # which protocol is this tree?  fixes/C20-verify-so-before-import.patch reads a stamp before it imports a
+    # cached entry (stage 'verify' in the trace of the request): its model is coq/C20/Verify.v (Props2.v);
+    # otherwise Model.v's New (Props.v), for which dmg-so-Header is the open finding (crash_class_kills).
+    ver = 'verify' in r0['res'].get('trace', [])
+    log('[C20] protocol of this tree: %s' % ('Ver (stamp verified before import)' if ver else 'New'))
     log('[C20] stepped build: %d/%d crash points reached, outcome %s, %.0fs' % (
         len(snaps), len(stops), OC_NAME[r0['code']], time.time() - t0))
     histories = []
@@ -555,6 +592,12 @@ def _run(ctx, thorough, base):
         if cls in ('Empty', 'Header', 'AllButLast') or thorough:
             dmg_hist('dmg-so-%s' % cls, [('dmg', 'so', cls), ('run', 0)])
     dmg_hist('dmg-pyx-c-o', [('dmg', 'pyx', 'Garbage'), ('dmg', 'c', 'Empty'), ('dmg', 'o', None), ('run', 0)])
+    if ver:
+        # the stamp in every class / deleted; .so and stamp together; a hit after the rebuild
+        for cls in (CLASSES + [None]) if thorough else ['AllButLast', 'Garbage', None]:
+            dmg_hist('dmg-ok-%s' % cls, [('dmg', 'ok', cls), ('run', 0)])
+        dmg_hist('dmg-so-Header+ok-Half', [('dmg', 'so', 'Header'), ('dmg', 'ok', 'Half'), ('run', 0), ('run', 0)])
+        histories.append({'name': 'kill-replaceok', 'events': [('kill', 0, 'replaceok'), ('run', 0), ('run', 0)]})
     if thorough:
         dmg_hist('dmg-so-deleted', [('dmg', 'so', None), ('run', 0), ('run', 0)])
         for role in ('pyx', 'c', 'o'):
@@ -703,12 +746,13 @@ def _run(ctx, thorough, base):
     for rc in races:
         cases.append({'name': 'race', 'events': [('sched', rc['forms'], [])], 'obs': [rc['obs']]})
     orc_txt = ' | '.join('%s => %s' % (c, oracle[c]) for c in CLASSES)
-    defs = HEADER % orc_txt + 'Definition cases := [\n' + ';\n'.join(coq_case(h) for h in cases) + '].\n'
+    HDR = HEADER_V if ver else HEADER
+    defs = HDR % orc_txt + 'Definition cases := [\n' + ';\n'.join(coq_case(h, ver) for h in cases) + '].\n'
     # self-test of the differ: the first case with one outcome flipped has to be reported
     mut = dict(cases[0])
     mut['obs'] = [([(o[0] + 1) % 5 if o else 1] if k == len(cases[0]['obs']) - 1 else o, f, t)
                   for k, (o, f, t) in enumerate(cases[0]['obs'])]
-    selft = HEADER % orc_txt + 'Definition cases := [%s].\nEval vm_compute in bad New true 0 cases.\n' % coq_case(mut)
+    selft = HDR % orc_txt + 'Definition cases := [%s].\nEval vm_compute in bad New true 0 cases.\n' % coq_case(mut, ver)
     tag = '%d' % os.getpid()          # concurrent runs of this check do not share generated files
     out = ctx.coq_eval_many([('C20_cases_' + tag, defs + 'Eval vm_compute in bad New true 0 cases.\n'),
                              ('C20_selftest_' + tag, selft)])
@@ -727,7 +771,7 @@ def _run(ctx, thorough, base):
     else:
         ctx.discharged += 1
     bad_old = None
-    if bad_new:
+    if bad_new and not ver:
         # diagnosis only: does the implementation behave as the model of the unrepaired protocol?
         ok3, o3 = ctx.coq_eval('C20_cases_old_' + tag, defs + 'Eval vm_compute in bad Old false 0 cases.\n')
         bad_old = parse_coq_list_of_nat(o3) if ok3 else None
@@ -757,6 +801,7 @@ def _run(ctx, thorough, base):
         'cold_start_races': [{'nproc': sp['nproc'], 'rounds': sp['rounds'], 'depth': sp['depth']} for sp, _ in colds],
         'monitor_polls': sum(r['polls'] for r in races)}
     ctx.cov['oracle'] = oracle
+    ctx.cov['protocol_model'] = 'Ver (coq/C20/Verify.v, Props2.v)' if ver else 'New (coq/C20/Model.v, Props.v)'
     ctx.cov['impl_matches_old_protocol_model'] = matches_old
     ctx.cov['rounding_bound'] = 'max|A-ref| <= %g * max|ref|' % REL_TOL
     ctx.cov['largest_observed_deviation_rel'] = lab.maxdev
